@@ -325,6 +325,26 @@ def norm_mem_start(texts, v):
 
 
 def _shared(ctx, rep, tier):
+    from .shared import delegate
+    delegate(ctx, rep, tier, "C03", ("C03.f",), "C12.i", "heap modes initialise a string exactly once in start(): default copied, or allocated / NULLed, split on 'has a default'",
+             where="CodegenCtx._generate_start_implementation", pred=lambda v: "start" in v.function)
+    rep.rule("C12.j", "an indexed string read yields the byte value in every element-type mode: the element is read through a uint8_t cast (plain char may be signed)")
+    fp = ctx.emit.enumerate("CodegenCtx._generate_code_for_int_expr", classes={"intexpr": "StringRefIntegerExpr"})
+    n = 0
+    for p in fp.paths:
+        if not p.end or p.end[0] != "return" or not isinstance(p.end[1], SStr):
+            continue
+        v = p.valuation()
+        if v.get("intexpr.ref.type == OutputStorageType.RAW") is True:
+            continue
+        txt = p.end[1].text()
+        n += 1
+        reads = re.findall(r"(\(uint8_t\)\s*)?state->c\.\[\[intexpr\.ref\.name\]\]\[", txt)
+        rep.check(bool(reads) and all(r for r in reads), "C12.j", "CodegenCtx._generate_code_for_int_expr", "string element read through (uint8_t)",
+                  f"`{txt[:120]}` reads a string element with its declared type: `char` is signed on common targets, so for bytes >= 0x80 `s[i] == 200` differs between char and "
+                  "uint8_t strings (-fstrings-as-u8 changes the parse)")
+    if n < 2:
+        raise AnalysisError("C12.j: index read paths not found")
     rep.rule("C12.h", "zero-length-input support only adds the entry test; without the flag the test is still emitted whenever a transition may return early (shared with C02.d)")
     from .c02 import check_needs_end_check
     check_needs_end_check(ctx, rep, "C12.h")
